@@ -1097,7 +1097,7 @@ THEOREMS = [
     "C06_document: BuiltTbl scalar_ok key_ok t -> tbl_hdepth t < LIMIT -> tbl_vdepth t < LIMIT -> parse_document (display_document (render_tbl float_text t)) = POk d /\\ abs_tbl (doc_root d) = printed_entries (abs_tbl t)  (values before sub-tables in every table, empty arrays of tables dropped: all a TOML document can say)",
     "C06_built_value / C06_built_document: everything the construction terms (Value::from, Array::new+push / collect, InlineTable::new+insert / collect, Table::new+insert, ArrayOfTables::new+push, DocumentMut::new / from(Table)) evaluate to is inside Built",
     "C06_value_constructed / C06_document_constructed: the two round trips stated on the construction terms themselves",
-    "C06_text: the printer's text of a constructed value is the structural text `txt` between its decor (no fuel; printing is a function of the tree: C06_pure is by construction in Gallina, and checked on the implementation by printing twice and printing a clone)",
+    "C06_text: the printer's text of a constructed value is the structural text `txt` between its decor (no fuel; printing is a function of the tree: purity holds by construction in Gallina - there is no theorem to state - and is checked on the implementation by printing twice and printing a clone)",
     "C06_toml_display / C06_toml_value_built (Props/C06toml.v): the trees toml's serializers hand to the printer for Display of toml::Value / toml::Table and toml::to_string are inside Built; the text parses back to the value, maps in printed order, NaN without its sign — tied to the implementation by the `toml` command (lone values of every kind, table[k], root tables; BTreeMap and IndexMap builds; toml's reader and toml_edit's parser on every text; model text byte for byte for Display and to_string)",
     "Built_WF / C06_constructed_WF / C06_constructed_print_parse / C06_constructed_both (Props/C06wf.v, proofs by eng-c14 in Proofs/WFBuilt.v): a constructed document without an empty array of tables is well-formed (Spec/WF.v), its text is accepted and decodes to Display's data WITH table kinds; on the same premises C06_document's conclusion holds of the same parsed document",
     "Examples: nesting 79 is read back and 80 refused (values and header paths); a value taken out of an array keeps its blank and does not parse alone; nasty document with value after sub-table, repeated key, empty array of tables",
